@@ -194,11 +194,13 @@ def distinctNames : List Name → Bool
   | [] => true
   | x :: xs => !xs.contains x && distinctNames xs
 
-/-- `validateImportHeader`: no empty name, no duplicate, the time column is present, and a literal
-`time` column may not coexist with a renamed time column. -/
+/-- `validateImportHeader`: no empty name, no `_`-prefixed name (since /repo 273e2e1; fact
+`importRejectsUnderscoreName`), no duplicate, the time column is present, and a literal `time` column
+may not coexist with a renamed time column. -/
 def validHeader (header : List Name) (timeCol : Name) : Bool :=
   !header.contains [] && distinctNames header && header.contains timeCol &&
-  (timeCol == timeName || !header.contains timeName)
+  (timeCol == timeName || !header.contains timeName) &&
+  !(importRejectsUnderscoreName && header.any isUnderscore)
 
 /-- the map keys `importCSV` / `importParquet` store the columns under: the header names exactly as
 validated (fact `importNamesStoredAsValidated`), the time column under "time". -/
